@@ -122,6 +122,49 @@ Proof.
 Qed.
 Print Assumptions c09_ids_from_generator.
 
+(** The stock ID generator (randomIDGenerator over math/rand's Rand.Read), for ALL streams [w]
+    of source words, all reader states, any fuel for the two retry loops:
+    a returned id is the first non-zero draw - all earlier draws were zero, it has the right
+    length and is non-zero (a); conversely the loop returns as soon as a non-zero draw occurs
+    within the fuel (b); if T bytes had been handed out before, T + n*(j+1) have been afterwards,
+    where 7 * (words taken from the source) = bytes handed out + bytes left in the current word (c);
+    NewSpanID / NewIDs return non-zero ids of 8 / 16 and 8 bytes, drawn independently (d). *)
+Theorem c09_stock_generator : forall (w : nat -> N),
+  (forall n fuel st b st', draw w n fuel st = Some (b, st') ->
+     exists j, (j < fuel)%nat /\
+       (forall i, (i < j)%nat -> all_zero (fst (read_bytes w n (after w n i st))) = true) /\
+       read_bytes w n (after w n j st) = (b, st') /\ all_zero b = false /\ length b = n) /\
+  (forall n fuel st j, (j < fuel)%nat ->
+     (forall i, (i < j)%nat -> all_zero (fst (read_bytes w n (after w n i st))) = true) ->
+     all_zero (fst (read_bytes w n (after w n j st))) = false ->
+     draw w n fuel st = Some (read_bytes w n (after w n j st))) /\
+  (forall n fuel st b st' T, acct st T -> draw w n fuel st = Some (b, st') ->
+     exists j, (j < fuel)%nat /\ acct st' (T + n * S j) /\ all_zero b = false /\ length b = n) /\
+  (forall fuel st sd st', stock_span_id w fuel st = Some (sd, st') -> all_zero sd = false /\ length sd = 8%nat) /\
+  (forall fuel st t sd st', stock_ids w fuel st = Some (t, sd, st') ->
+     all_zero t = false /\ length t = 16%nat /\ all_zero sd = false /\ length sd = 8%nat).
+Proof.
+  intro w. split; [exact (draw_spec w)|]. split; [exact (draw_complete w)|]. split; [exact (draw_acct w)|].
+  split; [exact (stock_span_id_valid w)|exact (stock_ids_valid w)].
+Qed.
+Print Assumptions c09_stock_generator.
+
+(** ... and a provider using it is an instance of the oracle of [c09_ids_from_generator] /
+    [c09_trace_id_inherited_or_fresh]: whenever the program runs to completion (fuel not exhausted)
+    it is the oracle run whose k-th answer is what the stock generator gave the k-th Start, and every
+    started span carries a valid span id, every root a valid trace id. *)
+Theorem c09_stock_generator_spans_valid : forall (w : nat -> N) fuel s ops res st',
+  run_stock w fuel s ops [] rinit = Some (res, st') ->
+  res = run_prog (ids_of res) s ops /\
+  forall k sp, nth_error res k = Some sp ->
+    valid_sid (sid (sc sp)) = true /\ (asked_ids sp = true -> valid_tid (tid (sc sp)) = true).
+Proof.
+  intros w fuel s ops res st' H. split.
+  - symmetry. unfold run_prog. apply (run_stock_oracle w s fuel ops [] rinit res st' _ H). reflexivity.
+  - intros k sp Hn. apply (run_stock_valid w s fuel ops [] rinit res st' H k sp); [cbn; lia|exact Hn].
+Qed.
+Print Assumptions c09_stock_generator_spans_valid.
+
 (** Non-vacuity. *)
 Definition HALF : N := 4602678819172646912.          (* 0.5 *)
 Definition tid_lo (x : N) : bytes := repeat 0 8 ++ [x / 2 ^ 56; (x / 2 ^ 48) mod 256; (x / 2 ^ 40) mod 256;
@@ -145,3 +188,12 @@ Example ex_tree :
   [(repeat 1 16, 0, true, false, str "x=y"); (repeat 1 16, 0, false, false, str "x=y");
    (repeat 7 16, 3, true, true, str "a=1"); (repeat 4 16, 0, true, false, str "x=y")].
 Proof. vm_compute. reflexivity. Qed.
+
+(* words 0, 0, 65536 (only its third byte is non-zero), 0, then 0x0101010101010101: the first 16-byte draw
+   sees 14 + 2 zero bytes and is retried; the second starts inside the third word; the span id follows *)
+Definition ex_words (k : nat) : N := match k with 0%nat | 1%nat => 0 | 2%nat => 65536 | 3%nat => 0 | _ => 72340172838076673 end.
+Example ex_stock :
+  stock_ids ex_words 8 rinit =
+  Some ([1;0;0;0;0; 0;0;0;0;0;0;0; 1;1;1;1], [1;1;1;1;1;1;1;1], {| rk := 6; rval := 65793; rpos := 2 |}) /\
+  stock_ids ex_words 1 rinit = None.
+Proof. vm_compute. auto. Qed.
